@@ -105,3 +105,61 @@ func TestWriterOffers(t *testing.T) {
 		ev.Sample(c)
 	})
 }
+
+// A Writer without a Balancer distributes round-robin (the documented default): over a sequence of calls the partitions
+// of the topic receive the same number of messages, give or take one -- whatever the way the messages are spread over calls.
+
+type defaultBalCase struct {
+	Partitions int   `json:"partitions"`
+	Calls      []int `json:"calls"` // messages per WriteMessages call, the calls follow each other
+}
+
+func init() {
+	ev.Register("writer-default", func(tb ev.TB, c defaultBalCase) { runDefaultBalancer(tb, c) })
+}
+
+func runDefaultBalancer(tb ev.TB, c defaultBalCase) {
+	wc := wsim.Case{Brokers: 1, ProduceMax: 7, BatchSize: 100, BatchBytes: 1 << 20, BatchTimeoutMs: 1, MaxAttempts: 1, BackoffMinMs: 1, BackoffMaxMs: 2,
+		Acks: -1, Balancer: "default", WriteTimeoutMs: 5000, SettleMs: 2000, Topics: []string{"d"}, Partitions: []int{c.Partitions}}
+	var calls []wsim.Call
+	total := 0
+	for _, n := range c.Calls {
+		var call wsim.Call
+		for i := 0; i < n; i++ {
+			call.Msgs = append(call.Msgs, wsim.Msg{Topic: "d", KeyLen: -1, ValueSize: 12})
+		}
+		total += n
+		calls = append(calls, call)
+	}
+	wc.Callers = [][]wsim.Call{calls}
+	res := wsim.Run(wc)
+	counts := make([]int, c.Partitions)
+	logged := 0
+	for p, recs := range res.Logs["d"] {
+		if p < len(counts) {
+			counts[p] = len(recs)
+		}
+		logged += len(recs)
+	}
+	if logged != total {
+		ev.Inconclusive("writer-default/not-all-logged")
+		return
+	}
+	lo, hi := total/c.Partitions, (total+c.Partitions-1)/c.Partitions
+	for p, n := range counts {
+		if n < lo || n > hi {
+			ev.Fail(tb, "writer-default", "writer-default/uneven", c, "a Writer without Balancer wrote %d messages in calls of %v to a topic of %d partitions: partition %d received %d of them (per partition: %v), a round-robin distribution gives every partition %d..%d", total, c.Calls, c.Partitions, p, n, counts, lo, hi)
+			return
+		}
+	}
+}
+
+func TestWriterDefaultBalancer(t *testing.T) {
+	rapid.Check(t, func(t *rapid.T) {
+		c := defaultBalCase{Partitions: rapid.IntRange(2, 7).Draw(t, "partitions")}
+		c.Calls = rapid.SliceOfN(rapid.SampledFrom([]int{1, 1, 1, 2, 3, 5}), 2, 16).Draw(t, "calls")
+		runDefaultBalancer(t, c)
+		ev.Case(fmt.Sprintf("default-balancer/%+v", c), len(c.Calls) > c.Partitions, "writer_default_balancer")
+		ev.Sample(c)
+	})
+}
